@@ -185,6 +185,10 @@ func (b *Bucket) MarshalBinary() (data []byte, err error) {
 		bytes, err = a.MarshalBinary()
 		data = append(data, bytes...)
 	}
+	if len(data) < int(b.Length) {
+		// pad to the 64-bit aligned length announced in the bucket header
+		data = append(data, make([]byte, int(b.Length)-len(data))...)
+	}
 
 	return
 }
